@@ -55,6 +55,25 @@ func longForm(s *Scenario) (*Scenario, map[string]string) {
 	return v, unkMap
 }
 
+// replaceWholeToken - replaces occurrences of tok in s that stand as a whole token (delimited by a quote, a bracket, white
+// space or the ends of the text), not as part of a longer one (`--z` inside `'--zy96'`).
+func replaceWholeToken(s, tok, by string) string {
+	isDelim := func(b byte) bool {
+		return b == '\'' || b == '"' || b == ' ' || b == '[' || b == ']' || b == '\n' || b == '\t' || b == ',' || b == ':'
+	}
+	var sb strings.Builder
+	for i := 0; i < len(s); {
+		if strings.HasPrefix(s[i:], tok) && (i == 0 || isDelim(s[i-1])) && (i+len(tok) == len(s) || isDelim(s[i+len(tok)])) {
+			sb.WriteString(by)
+			i += len(tok)
+			continue
+		}
+		sb.WriteByte(s[i])
+		i++
+	}
+	return sb.String()
+}
+
 // splitBundles - Bundling: -xyz[=v] written as -x -y -z[=v].
 func splitBundles(s *Scenario) *Scenario {
 	v := &Scenario{Prog: s.Prog, Term: s.Term, Tail: s.Tail}
@@ -138,7 +157,7 @@ func init() {
 					// same diagnostic modulo the verbatim token text
 					ea, eb := a.Err, b.Err
 					for nt, ot := range m {
-						eb = strings.ReplaceAll(eb, nt, ot)
+						eb = replaceWholeToken(eb, nt, ot)
 					}
 					if ea != eb {
 						d = append(d, fmt.Sprintf("different errors: %q vs %q", a.Err, b.Err))
